@@ -101,6 +101,18 @@ def tlc_cover(chk, name, consts, timeout=1500):
     return r
 
 
+def tlc_canary(chk, consts):
+    """Sensitivity canary: the named deviation 'late fusion without the vector term of a candidate outside the k nearest' must be
+    distinguishable from the formula within the bound -- TLC has to find a state/query/k refuting Canary_LateFusionIsFormula."""
+    cfg = make_cfg("Spec", dict(consts, MaxOps=3), ["Canary_LateFusionIsFormula"], [])
+    r = run_tlc("MC_TextIdx", "MC_TextIdx_canary.cfg", cfg_text=cfg, workers=2, timeout=600)
+    chk.cov["tlc_runs"].append({"config": "MC_TextIdx_canary", "expected": "violation of Canary_LateFusionIsFormula", "violated": r.violated,
+                                "states_generated": r.generated, "wall_s": round(r.wall, 1)})
+    if r.violated != "Canary_LateFusionIsFormula":
+        chk.infra.append("canary did not fire: TLC found no state in which a candidate lies outside the k nearest (%s)" % (r.error or r.raw_tail)[:800])
+    return r
+
+
 def geometry(r):
     g = r.printed.get("GEOM")
     if not g:
@@ -111,12 +123,12 @@ def geometry(r):
 def profile(geom, lang, seed, add_via="VAdd", decor=False, light=False, m=8, traces=40):
     return {"lang": lang, "seed": seed, "m": m, "efc": 100, "add_via": add_via, "decor": decor, "docs": geom["docs"], "nt": NT,
             "pos": geom["pos"], "qvecs": geom["qvecs"], "d2": geom["d2"], "out": seed % len(geom["docs"]), "light": light,
-            "max_div": 3, "traces": traces, "strict_formula": os.environ.get("C09_STRICT_FORMULA", "1") == "1"}
+            "max_div": 3, "traces": traces}
 
 
 TOTALS = ["behaviours", "steps", "checked_steps", "text_queries", "text_nontrivial", "scores", "scores_multi", "fusion_searches",
           "alpha0", "alpha1", "alpha_half", "fused_scores", "text_only", "contains_form", "filtered", "small_k", "ties",
-          "alpha_interior_small_k", "alpha_half_small_k_measured", "alpha_half_small_k_returned_without_vector_term", "alpha_half_small_k_differs_from_formula",
+          "alpha_interior_small_k", "alpha_interior_small_k_candidate_outside_k_nearest",
           "after_overwrite_or_delete", "div_total"]
 
 
@@ -268,6 +280,7 @@ def run(tier):
             return plan, r, r2
         return plan, r, r
     futs = [pool.submit(gen, p) for p in plans]
+    canary_fut = pool.submit(tlc_canary, chk, plans[0][1])
 
     trace_consts = None
     for fut in futs:
@@ -291,6 +304,7 @@ def run(tier):
             chk.cov["samples"] = [{"history": [s["op"] for s in ex["steps"]], "expected_after_last_step": ex["steps"][-1]["exp"]}]
         trace_consts = trace_consts or consts
 
+    canary_fut.result()
     for cf in cover_futs:
         rcov = cf.result()
         if rcov.violated:
@@ -309,7 +323,7 @@ def run(tier):
     chk.cov["families"] = families
     chk.cov["searches_judged_by_tlc"] = ntr
     chk.cov["known_finding_divergences"] = dict(known_hits)
-    for key, least in (("behaviours", 100), ("text_nontrivial", 1000), ("scores_multi", 100), ("alpha_half", 1000), ("alpha_interior_small_k", 1000), ("text_only", 1000),
+    for key, least in (("behaviours", 100), ("text_nontrivial", 1000), ("scores_multi", 100), ("alpha_half", 1000), ("alpha_interior_small_k", 1000), ("alpha_interior_small_k_candidate_outside_k_nearest", 300), ("text_only", 1000),
                        ("filtered", 100), ("small_k", 100), ("contains_form", 100), ("after_overwrite_or_delete", 100), ("ties", 10)):
         if totals.get(key, 0) < least:
             chk.infra.append("vacuous coverage: %s = %s" % (key, totals.get(key, 0)))
@@ -333,13 +347,12 @@ def run(tier):
         "vector similarity of the fusion is 1/(1+d), d = squared Euclidean distance (normalizeVectorScores); the vector side is kept in the exact regime: "
         "3 documents on an integer lattice with pairwise distinct distances to every query vector (checked by TLC), at most 2*M nodes ever in the index "
         "(M=8, M=16 for walks), float32 and, after VCompress, float16 (lattice integers are exact in both)",
-        "0 < alpha < 1 (1/2 and one of 0.25, 0.4, 0.75) is judged for EVERY k by the late-fusion rule that searchWithFusion implements (FusionPool / HybridOK "
-        "of TextIdx.tla): pool = the k nearest allowed documents + EVERY allowed candidate of the text query; a pool document scores alpha/(1+d) only if it is "
-        "among the k nearest, plus (1-alpha)*bm25/max with its OWN BM25 (max over all allowed candidates) if it is a candidate; the k best of the pool are "
-        "returned, each reported score must be exactly that, in non-increasing order. For k >= live documents this IS the documented formula "
-        "alpha*VectorScore + (1-alpha)*BM25Score on every document. For k < live documents it deviates from that formula in one respect only: a candidate outside "
-        "the k nearest carries no vector term (and may therefore lose its place); how often the returned list then differs from the formula's top-k is measured "
-        "(alpha_half_small_k_differs_from_formula) and is a divergence (known finding KF-C09-2) unless C09_STRICT_FORMULA=0",
+        "0 < alpha < 1 (1/2 and one of 0.25, 0.4, 0.75) is judged for EVERY k by the documented formula on every live allowed document (HybridOK of TextIdx.tla): "
+        "score(d) = alpha/(1+dist(d)) + (1-alpha)*bm25(d)/max with the document's OWN BM25 (0 unless it is a candidate, max over the allowed candidates); the returned "
+        "list must be a top-k of that score (ties either way), every reported score equal to it within 1e-9, in non-increasing order. alpha = 0: the candidates in text "
+        "order, followed -- only when k exceeds their number -- by documents without a text score (fused score 0, any order; the engine takes them from the k nearest); "
+        "alpha = 1: the exact vector order. The late fusion with a truncated vector side (a candidate outside the k nearest scored without its vector term, repaired in "
+        "76184b9) is kept in the specification only as a named deviation: TLC must refute Canary_LateFusionIsFormula, and the searches on which the two rules differ are counted",
         "when no document has any posting the engine has no text field to search and falls back to a plain vector search (scores not scaled by alpha): accepted "
         "for hybrid queries (same ranking); for a text-only query the specification requires the empty result",
         "3 documents, 4 terms, term frequency <= 2, one text field (\"content\"); texts are space-separated words (optionally decorated with dropped stop words, "
